@@ -345,6 +345,82 @@ fn record(name: &str, op: &str, front: &str, rep: &mut Report) {
     }
 }
 
+/// Maintenance keeps a path buffer across entries; with entries vanishing under it (a deleter, a
+/// peer's eviction) every mutating call must still land inside the cache directories.  The parent
+/// directory holds sentinel files named like the cached entries.
+fn concurrent_programs() -> Vec<(crate::sched::Program, crate::props::e1::Mode)> {
+    use crate::ops::{Op, Pop};
+    use crate::props::e1::{self, api, planted, Mode};
+    use crate::sched::POp;
+    use crate::world::Size;
+    let k = e1::key1();
+    let j = e1::key2();
+    let mut out = Vec::new();
+    for front in ["plain", "sharded"] {
+        let cfg = if front == "plain" { e1::plain_cfg(2) } else { e1::sharded_cfg(4) };
+        let sd = crate::ops::shard_dir_name(0);
+        let loc = |n: &str| if front == "sharded" { format!("{}/{}", sd, n) } else { n.to_string() };
+        let up = |n: &str| if front == "sharded" { format!("{}/../{}", sd, n) } else { format!("../{}", n) };
+        // two read-marked old entries (both get re-queued), two unread (both evicted), and same-named sentinels one level up
+        let mut pre = vec![
+            planted(&loc("x1"), Val::new(23, Size::One), true, 9),
+            planted(&loc("k"), Val::new(0, Size::Five), true, 7),
+            planted(&loc("j"), Val::new(22, Size::Five), false, 5),
+            planted(&loc("x2"), Val::new(24, Size::One), false, 3),
+        ];
+        for n in ["x1", "k", "j", "x2", "m"] {
+            pre.push(planted(&up(n), Val::new(9, Size::Five), false, 100));
+        }
+        let v = |t: usize| e1::wval(t, 0, Size::One);
+        let m = crate::ops::key_for_shards("m", 0, 1, 2);
+        let mut add = |name: &str, threads: Vec<Vec<POp>>| {
+            out.push((
+                crate::sched::Program {
+                    name: format!("confine-{}-{}", front, name),
+                    cfg: cfg.clone(),
+                    pre: pre.clone(),
+                    threads: e1::own_handles(threads, true),
+                    create_write_dir: true,
+                },
+                Mode::Bounded(2),
+            ));
+        };
+        add("set|deleter", vec![vec![api(Op::Set(m.clone(), v(0)))], vec![POp::Unlink(loc("x1")), POp::Unlink(loc("k"))]]);
+        add("ensure|deleter", vec![vec![api(Op::Ensure(m.clone(), Pop::Value(v(0))))], vec![POp::Unlink(loc("x1"))]]);
+        add("set|set", vec![vec![api(Op::Set(m.clone(), v(0)))], vec![api(Op::Put(j.clone(), v(1)))]]);
+        let _ = &k;
+    }
+    out
+}
+
+fn concurrent_check(x: &crate::sched::Execution) -> Vec<(String, String)> {
+    let mut bad = Vec::new();
+    let root = x.root.to_string_lossy().into_owned();
+    let allowed = [format!("{}/w/", root), format!("{}/app_tmp/", root), format!("{}/r0/", root)];
+    let wdir = format!("{}/w", root);
+    for e in &x.trace {
+        if !is_mutating(e) || !e.ok() {
+            continue;
+        }
+        for p in [e.path.as_ref(), if matches!(e.kind, Kind::Rename | Kind::Link) { e.path2.as_ref() } else { None }].into_iter().flatten() {
+            let norm = lexical_normalise(Path::new(p)).to_string_lossy().into_owned();
+            let inside = allowed.iter().any(|a| norm.starts_with(a)) || norm == wdir;
+            // in a sharded cache, entries live in shard directories only: the root holds no cached files
+            let sharded_root_file = norm.starts_with(&format!("{}/", wdir))
+                && x.final_snapshot.keys().any(|k| k.starts_with("w/.kismet_0"))
+                && Path::new(&norm).parent().map(|d| d.to_string_lossy() == wdir).unwrap_or(false)
+                && !Path::new(&norm).file_name().map(|n| n.to_string_lossy().starts_with(".kismet")).unwrap_or(false);
+            if !inside || sharded_root_file {
+                bad.push((
+                    "call-outside-cache".into(),
+                    format!("t{} {} touched {} (outside the cache's own directories)", e.tid, e.func, norm.replace(&root, "")),
+                ));
+            }
+        }
+    }
+    bad
+}
+
 pub fn run(tier: Tier, shard: Shard, rep: &mut Report) {
     let max_len = if tier == Tier::Quick { 4 } else { 6 };
     rep.rule = format!(
@@ -352,8 +428,9 @@ pub fn run(tier: Tier, shard: Shard, rep: &mut Report) {
          (.. components, trailing /, nested existing dirs, 255/256/5000-byte names) x 8 operations x {{plain, sharded, \
          stacked}} front-ends, in a world of sentinel files around and inside the cache directory; oracle = \
          InvalidInput+unchanged world for reserved names, else error+unchanged or effects confined to the single \
-         direct-child entry, plus a monitor on every mutating call's path. Non-trivial = accepted-by-first-byte name \
-         containing a separator, NUL, '..' or of extreme length.",
+         direct-child entry, plus a monitor on every mutating call's path. Plus, under concurrency (all schedules with <= 2 preemptions of a maintaining writer racing with a deleter or another \
+         writer, sentinel files named like the entries one directory up): every mutating call lands inside the cache's own \
+         directories. Non-trivial = accepted-by-first-byte name containing a separator, NUL, '..' or of extreme length.",
         max_len,
         extras().len()
     );
@@ -382,9 +459,18 @@ pub fn run(tier: Tier, shard: Shard, rep: &mut Report) {
     if shard.index == 0 {
         rep.sample(case_json("a/../../x", "set", "plain"));
     }
+    let progs = concurrent_programs();
+    let mut chk = |_pi: usize, x: &crate::sched::Execution| concurrent_check(x);
+    crate::props::e1::explore_all("C16", &progs, shard, rep, &|_| crate::sched::RunOpts::default(), &mut chk, 500_000);
 }
 
 pub fn replay(case: &Value, rep: &mut Report) {
+    if case.get("program").is_some() {
+        let progs: Vec<crate::sched::Program> = concurrent_programs().into_iter().map(|p| p.0).collect();
+        let mut chk = |x: &crate::sched::Execution| concurrent_check(x);
+        crate::props::e1::replay_case("C16", &progs, case, rep, &|| crate::sched::RunOpts::default(), &mut chk);
+        return;
+    }
     let bytes: Vec<u8> = case["name_bytes"].as_array().unwrap().iter().map(|b| b.as_u64().unwrap() as u8).collect();
     let name = String::from_utf8(bytes).unwrap();
     record(&name, case["op"].as_str().unwrap(), case["front"].as_str().unwrap(), rep);
